@@ -49,6 +49,7 @@ structure PoolTx where
 /-- mempool.SHashTxCache + getTxListByHash(IsShortHash): a map short hash → tx, first push wins. -/
 structure Pool where
   up : Bool := true                       -- false: QueryModule returns an error
+  short : Bool := false                   -- the reply carries fewer entries than hashes were asked for
   ents : List (SH × PoolTx) := []
   deriving Repr, DecidableEq
 
@@ -134,6 +135,7 @@ def build (pool : Pool) (pd : Pend) : Res BuildOut :=
     | .panic => .panic
     | .ok w =>
       if !pool.up then .ok ⟨false, none, pd⟩
+      else if pool.short && !w.isEmpty then .panic        -- `txList.GetTxs()[i]`, unguarded ("请求mempool会返回相应长度的数组")
       else
         match fill pool w pd.txs true with
         | .panic => .panic
@@ -161,6 +163,7 @@ structure BlockReq where
 inductive ChainReply where
   | err
   | items (n : Nat)
+  | otherType          -- a reply whose Data is neither an error nor *types.BlockDetails
   deriving Repr, DecidableEq
 
 /-- the mutexes of the light-broadcast / validator state that a background loop needs in order to step -/
@@ -183,6 +186,7 @@ def Release.leaksOnPanic : Release → Bool
 
 structure State where
   held : List LockId := []        -- locks left behind by a panic that was recovered further up
+  unanswered : Nat := 0           -- broadcasts handed to blockchain/mempool whose verdict never comes back
   pool : Pool := {}
   pend : List Pend := []
   seen : List String := []        -- blockFilter keys
@@ -280,6 +284,7 @@ def handleReq (s : State) (r : BlockReq) : Res (Option ReqOut) :=
   else
     match s.chain with
     | .err => .ok (some .failed)
+    | .otherType => .ok (some .failed)         -- API.GetBlocks: ErrTypeAsset
     | .items 0 => .panic                      -- details.GetItems()[0]
     | .items _ => .ok (some .sent)
 
@@ -357,6 +362,12 @@ def recvLtTotalWith (rel : Release) (s : State) (i : LtIn) : State × Res LtOut 
   | .ok (s', o) => (s', .ok o)
 
 def recvLtTotal (s : State) (i : LtIn) : State × Res LtOut := recvLtTotalWith addLtBlockRelease s i
+
+/-- manageDeniedPeer collects the verdicts with `QueueClient.Wait` = `WaitTimeout(-1)`: no timer. It blocks for as
+long as a verdict is outstanding — for ever if the blockchain module never answers. Nothing a peer sends changes
+`unanswered`: blockchain.broadcastAddBlock replies on every path (processMsg replies even after a panic), and
+transactions do not reach this list (handleSubMsg drops the tx topics). -/
+def deniedLoopBlocked (s : State) : Bool := decide (s.unanswered > 0)
 
 /-- a background loop can step when its lock is free -/
 def loopAlive (s : State) (l : LockId) : Bool := !s.held.contains l
@@ -445,6 +456,7 @@ def dlOld (chain : ChainReply) (rd : ReadRes) (hasMessage : Bool) (start end_ : 
     else
       match chain with
       | .err => .ok .dropped
+      | .otherType => .panic                  -- reply.Data.(*types.BlockDetails), unchecked (handler.go:76)
       | .items 0 => .ok .dropped
       | .items n => .ok (.sent n)
 
@@ -454,6 +466,7 @@ def dlNewCore (chain : ChainReply) (start end_ : Int) : Res StreamOut :=
   else
     match chain with
     | .err => .ok .dropped
+    | .otherType => .panic                    -- reply.Data.(*types.BlockDetails), unchecked (handler.go:37)
     | .items 0 => .ok .dropped
     | .items _ => .ok (.sent 1)
 
@@ -522,7 +535,7 @@ def sameBodyFacts : List String := ["pendBlockLoop", "manageDeniedPeer", "blockR
 
 inductive Path where
   | recvLt | pendTick | recvReq | reqTick | recvResp | deniedTick
-  | validate | subMsgDecode | dlOld | dlNew | dlReply | version | peerInfo
+  | validate | subMsgDecode | dlOld | dlNew | dlReply | version | peerInfo | peerQuery
   deriving Repr, DecidableEq
 
 /-- `true`: the function (or the wrapper every call goes through) has a deferred `recover()`.
@@ -531,7 +544,7 @@ def recovered : Path → Bool
   | .recvLt | .recvReq | .recvResp => true
   | .dlOld | .dlNew | .version | .peerInfo => true
   | .pendTick | .reqTick | .deniedTick => false
-  | .validate | .subMsgDecode | .dlReply => false
+  | .validate | .subMsgDecode | .dlReply | .peerQuery => false
 
 /-- lock discipline per function, as the harness re-reads it from the source: every Lock is followed by
 `defer Unlock`, or nothing between it and its explicit Unlock can panic -/
